@@ -226,9 +226,20 @@ pub fn payload(n: u64) -> event::Info {
     Arc::new(format!("panic#{n}"))
 }
 
+thread_local! {
+    /// Engines whose scripted payloads have a KIND determined by their number (n % 3: 0 `String`, 1 `&'static str`,
+    /// 2 `u32`; numbers from 1000 on are always `String`) switch this on: a payload that arrives with another type than
+    /// it was thrown with is not "the payload" any more.
+    pub static STRICT_KINDS: std::cell::Cell<bool> = const { std::cell::Cell::new(false) };
+}
+
+fn kind_ok(n: u64, kind: u64) -> bool {
+    !STRICT_KINDS.with(std::cell::Cell::get) || (n >= 1000 && kind == 0) || (n < 1000 && n % 3 == kind)
+}
+
 pub fn payload_id(i: &event::Info) -> Value {
     if let Some(n) = i.downcast_ref::<u32>() {
-        return json!(n);
+        return if kind_ok(u64::from(*n), 2) { json!(n) } else { json!("<payload type changed>") };
     }
     if let Some(s) = i.downcast_ref::<String>() {
         if s.starts_with("failed to initialize") {
@@ -237,13 +248,13 @@ pub fn payload_id(i: &event::Info) -> Value {
             }
         }
         if let Some(n) = s.strip_prefix("panic#").and_then(|n| n.parse::<u64>().ok()) {
-            return json!(n);
+            return if kind_ok(n, 0) { json!(n) } else { json!("<payload type changed>") };
         }
         return json!(s);
     }
     if let Some(s) = i.downcast_ref::<&str>() {
         if let Some(n) = s.strip_prefix("panic#").and_then(|n| n.parse::<u64>().ok()) {
-            return json!(n);
+            return if kind_ok(n, 1) { json!(n) } else { json!("<payload type changed>") };
         }
         return json!(s);
     }
